@@ -38,7 +38,7 @@ func init() {
 		Floor:         floor,
 		MinNontrivial: 10,
 		Phases: []fw.Phase{
-			{Name: "concurrent", Race: true, N: func(t fw.Tier) int { return pick(t, 200, 6000) }, Run: c13Run},
+			{Name: "concurrent", Race: true, N: func(t fw.Tier) int { return pick(t, 400, 8000) }, Run: c13Run},
 		},
 		Witness: func(c *fw.Case, w *fw.Finding) { c.Discard("covered by the workload") },
 	})
